@@ -62,6 +62,11 @@ WORKSPACES = {
         "inc_ma.f90": "module inc_ma\n implicit none\n include 'common_decl.f90'\nend module inc_ma\n",
         "inc_mb.f90": "module inc_mb\n implicit none\n include 'common_decl.f90'\nend module inc_mb\n",
     },
+    # a PASS binding whose target is not a procedure (start-up used to abort in the middle of the linking pass; fixed in /repo)
+    "pass_non_procedure": {
+        "a_type.f90": "module type_mod\n implicit none\n integer :: notproc\n type :: t\n  integer :: k\n contains\n  procedure, pass(self) :: go => notproc\n end type t\nend module type_mod\n",
+        "b_other.f90": "module other\n use type_mod\n implicit none\n type(t) :: obj\ncontains\n subroutine w()\n  obj%k = 1\n  obj%\n end subroutine w\nend module other\n",
+    },
     # a header name present in two include directories: which one is read must not depend on the hash seed
     "header_in_two_dirs": {
         "__include_dirs__": ["inc1", "inc2", "inc3"],      # not a file: passed as --include_dirs (absolute) to every schedule
